@@ -1267,3 +1267,92 @@ def orc_c16(case, obs):
 
 
 prop("C16", ["c16_ready", "c16_complete", "c16_fragmented"], ["DEC"], gen_c16, [orc_c16])
+
+
+# ------------------------------------------------------------------------------------------------
+# C04 label attribution in lock step
+# ------------------------------------------------------------------------------------------------
+def gen_c04(rng, t):
+    out = []
+    for i in range(700 * t):
+        c = Case("c04_%d" % i)
+        c.add("ENEW", "DNEW 4 64 %s" % MGR_ALL)
+        for k in range(6):
+            c.add("DPROV %d" % (64 + k))
+        labs = [L6A, L6A, L6A, L6B, L3A, "B", "R"]
+        for _ in range(rng.range(3, 25)):
+            r = rng.below(24)
+            if r < 14:
+                lab = rng.choice(labs)
+                kind = rng.below(12)
+                pl = rng.range(0, 40)
+                if kind < 6:
+                    c.add("ENCAP %s %d 2048 %s 80 1" % (pdu_tok(rng, pl), rng.below(4), lab))
+                elif kind < 8:
+                    c.add("ENCAP %s %d 2048 %s %d 1" % (pdu_tok(rng, pl), rng.below(4), lab, rng.range(0, 14)))   # fails or fragments
+                elif kind < 9:
+                    c.add("ENCAP g66000.1 0 2048 %s 80 1" % lab)                                                  # fails late
+                elif kind < 10:
+                    c.add("ENCAP %s 0 %d %s 80 1" % (pdu_tok(rng, pl), rng.choice(PTYPES_BAD), lab))             # fails early
+                elif kind < 11:
+                    c.add("ENCAP %s 0 2048 %s 80 1" % (pdu_tok(rng, pl), ZERO6))
+                else:
+                    c.add("EEXT %s %d 2048 %s 90 1 %s" % (pdu_tok(rng, pl), rng.below(4), lab, exts_tok(rand_chain(rng, maxn=2))))
+                c.add("DECAPN -", "DPROVBACK")
+            elif r < 17:
+                c.add("EFRAGC %d 1" % rng.choice([5, 9, 13, 30, 80]), "DECAPN -", "DPROVBACK")
+            elif r < 19:
+                c.add("ERESET", "DRESET")
+            elif r < 20:
+                c.add("EDIS")
+            elif r < 21:
+                c.add("EEN")
+            elif r < 22:
+                c.add("EENMAX %d" % rng.choice([1, 2, 3]))
+            else:
+                c.add("DECAPN -")
+        c.meta["c04"] = True
+        out.append(c)
+    return out
+
+
+def orc_c04(case, obs):
+    bad = []
+    if not case.meta.get("c04") and not case.name.startswith("SYS."):
+        return bad
+    prev = None          # label of the preceding emitted start/complete packet (what a re-use marker stands for)
+    pend = None          # (intended label, packet, op) of the packet the next DECAPN delivers
+    ample = bool(case.meta.get("c04"))
+    for op, ob in zip(case.ops, obs):
+        t = op.split(" ")
+        if t[0] == "ENEW":
+            prev, pend = None, None
+        elif t[0] == "ERESET":
+            prev = None
+        elif t[0] in ("ENCAP", "EEXT"):
+            e = EncObs(ob)
+            pend = None
+            if e.ok:
+                lab = t[4]
+                if lab == "R":
+                    intended = prev
+                elif lab == "B":
+                    intended, prev = "B", None
+                else:
+                    intended, prev = lab, lab
+                pend = (intended, e, op)
+        elif t[0] == "EFRAGC":
+            pend = None
+        elif t[0] in ("DECAPN",) and ob != "nopkt" and pend is not None:
+            intended, e, eop = pend
+            pend = None
+            w, d = kv(ob)
+            if w and w[0] == "ok" and "label" in d:
+                if d["label"] != intended:
+                    bad.append("PDU sent with label %s (%s) delivered with label %s" % (intended, eop[:60], d["label"]))
+            elif ample and e.status == "C" and (e.pkt[0] >> 4) & 3 != 3 and eop.startswith("ENCAP"):
+                bad.append("complete packet with an explicit/broadcast label not delivered: %s -> %s" % (eop[:60], ob[:60]))
+    return bad
+
+
+prop("C04", ["c04_attribution", "c04_sync", "c04_receiver_only"], ["SYS"], gen_c04, [orc_c04])
